@@ -6,7 +6,10 @@
 
    M_Trace.v starts from a CALL TREE in which every activation already has one start and one end.
    This file derives that from the generated code: a function is (kind, body, tflag) where
-     kind   KFunc c            FuncDefNode path (c: C-level function, cdef/cpdef entry)
+     kind   KFunc c w          FuncDefNode path (c: C-level function, cdef/cpdef entry; w: a cpdef
+                               function entered through its Python wrapper: the wrapper emits the
+                               start event, the C function is told to skip its own (skip_dispatch)
+                               and emits the return / unwind event)
             KGen inl comp      GeneratorBodyDefNode path; inl = is_inlined (the generator
                                expression was inlined into any/all/sorted/list/set/dict/str.join by
                                Optimize.py: InlinedGeneratorExpressionNode), comp =
@@ -24,8 +27,8 @@
      yield      __Pyx_TraceYield; C return; resume label: __Pyx_TraceResumeGen; NULL sent value
                 -> error label                                        TYield ... TStart SResume|SThrow
      fall off   "if tracing and not self.body.is_terminator: put_trace_return"        [falloff]
-                The condition is the parameter [g : fkind -> bool]; the code as it is has
-                g = fun _ => true.  (A guard that is false for some kind loses the event: see
+                The condition is [cv_fall] of the parameter [g : cvar]; the code as it is has
+                cv_fall g = fun _ => true.  (A guard that is false for some kind loses the event: see
                 P_TraceGen.falloff_guard_necessary.)
      error      error label: __Pyx_TraceException (no legacy event), then
                 __Pyx_TraceExceptionUnwind / __Pyx_TraceReturnValue(NULL)            TUnwind
@@ -43,7 +46,15 @@ From Coq Require Import List Bool Arith.
 From CyVerif Require Import Model.M_Trace.
 Import ListNotations.
 
-Inductive fkind := KFunc (c : bool) | KGen (inlined comp : bool).
+Inductive fkind := KFunc (c w : bool) | KGen (inlined comp : bool).
+
+(* which variant of the generated code: [cv_fall k] = the fall-off-the-end return event is
+   emitted for kind k (the code as it is: every kind); [cv_wrap2] = the error path of the traced
+   Python wrapper of a cpdef function emits a second unwind event after the C function already
+   reported its own (the code as it is: true - finding cpdef_wrapper_raise_double_return) *)
+Record cvar := CV { cv_fall : fkind -> bool; cv_wrap2 : bool }.
+
+Definition wrapped (k : fkind) : bool := match k with KFunc _ w => w | KGen _ _ => false end.
 
 Inductive stmt :=
 | SExpr                          (* expression statement: calls (nested activations), may raise *)
@@ -213,27 +224,27 @@ with exec_l (fx gen : bool) (n d : nat) (body els : block) (o : list choice)
 
 (* ---------- the function around the body ---------- *)
 (* "if tracing and <g kind> and not self.body.is_terminator: code.put_trace_return(...)" *)
-Definition falloff (g : fkind -> bool) (k : fkind) (tflag : bool) : list tok :=
-  if g k && negb tflag then [TRet] else [].
+Definition falloff (g : cvar) (k : fkind) (tflag : bool) : list tok :=
+  if cv_fall g k && negb tflag then [TRet] else [].
 
-Definition finish (g : fkind -> bool) (fx : bool) (k : fkind) (tflag : bool) (out : outcome)
+Definition finish (g : cvar) (fx : bool) (k : fkind) (tflag : bool) (out : outcome)
   : list tok :=
   match out with
   | ONormal => falloff g k tflag
   | OReturn p => if fx && p then [TRet] else []
-  | ORaise _ => [TUnwind]
+  | ORaise _ => TUnwind :: (if cv_wrap2 g && wrapped k then [TUnwind] else [])
   | OAbandon | OStuck => []
   end.
 
 Definition gen_allowed (k : fkind) : bool :=
-  match k with KFunc _ => false | KGen i _ => negb i end.
+  match k with KFunc _ _ => false | KGen i _ => negb i end.
 
 (* the whole life of one activation (KFunc) / one generator instance (KGen) *)
-Definition run (g : fkind -> bool) (fx : bool) (fn : func) (n : nat) (o : list choice)
+Definition run (g : cvar) (fx : bool) (fn : func) (n : nat) (o : list choice)
   : list tok * outcome :=
   let k := f_kind fn in
   match k with
-  | KFunc _ =>
+  | KFunc _ _ =>
       let '(t, out, _) := exec_b fx false n 0 (f_body fn) o in
       (TStart SCall :: t ++ finish g fx k (f_tflag fn) out, out)
   | KGen _ _ =>
@@ -255,11 +266,11 @@ Definition default_branch : list tok := [TStart SGenStart; TRet].
 (* textual layout of the trace macros around "function exit code" (static tie) *)
 Inductive etok := EMark | EFall | EGotoRet | EErrLabel | EIfExc | EExc | EUnw.
 
-Definition epilogue (g : fkind -> bool) (k : fkind) (tflag : bool) : list etok :=
+Definition epilogue (g : cvar) (k : fkind) (tflag : bool) : list etok :=
   let fall := map (fun _ => EFall) (falloff g k tflag) in
   let skip := if tflag then [] else [EGotoRet] in
   match k with
-  | KFunc _ => [EMark] ++ fall ++ skip ++ [EErrLabel; EExc; EUnw]
+  | KFunc _ _ => [EMark] ++ fall ++ skip ++ [EErrLabel; EExc; EUnw]
   | KGen _ _ => fall ++ [EMark] ++ skip ++ [EErrLabel; EIfExc; EExc; EUnw]
   end.
 
@@ -324,20 +335,20 @@ Fixpoint expand (t : tool) (lt : bool) (f : nat) (seg : list tok) (kids : list (
   | k :: r => tok_events t lt f k ++ expand t lt f r kids
   end.
 
-Definition seg_of (g : fkind -> bool) (fx : bool) (prog : list func) (f : nat)
+Definition seg_of (g : cvar) (fx : bool) (prog : list func) (f : nat)
   (o : list choice) (fuel k : nat) : list tok :=
   match nth_error prog f with
   | Some fn => seg_at k (fst (run g fx fn fuel o))
   | None => []
   end.
 
-Fixpoint word (g : fkind -> bool) (fx : bool) (t : tool) (lt : bool) (prog : list func) (x : xt)
+Fixpoint word (g : cvar) (fx : bool) (t : tool) (lt : bool) (prog : list func) (x : xt)
   : list event :=
   match x with
   | XT f o fuel k kids =>
       expand t lt f (seg_of g fx prog f o fuel k) (words g fx t lt prog kids)
   end
-with words (g : fkind -> bool) (fx : bool) (t : tool) (lt : bool) (prog : list func) (xs : xts)
+with words (g : cvar) (fx : bool) (t : tool) (lt : bool) (prog : list func) (xs : xts)
   : list (list event) :=
   match xs with
   | XNil => []
@@ -367,7 +378,7 @@ Definition seg_node (f : nat) (seg : list tok) (kids : list node) : option node 
   | _ => None
   end.
 
-Fixpoint to_node (g : fkind -> bool) (fx : bool) (prog : list func) (x : xt) : option node :=
+Fixpoint to_node (g : cvar) (fx : bool) (prog : list func) (x : xt) : option node :=
   match x with
   | XT f o fuel k kids =>
       match to_nodes g fx prog kids with
@@ -375,7 +386,7 @@ Fixpoint to_node (g : fkind -> bool) (fx : bool) (prog : list func) (x : xt) : o
       | None => None
       end
   end
-with to_nodes (g : fkind -> bool) (fx : bool) (prog : list func) (xs : xts) : option (list node) :=
+with to_nodes (g : cvar) (fx : bool) (prog : list func) (xs : xts) : option (list node) :=
   match xs with
   | XNil => Some []
   | XCons x r =>
@@ -386,7 +397,7 @@ with to_nodes (g : fkind -> bool) (fx : bool) (prog : list func) (xs : xts) : op
   end.
 
 (* every node of the tree names a function of the program and a segment that ran to its end *)
-Fixpoint complete (g : fkind -> bool) (fx : bool) (prog : list func) (x : xt) : bool :=
+Fixpoint complete (g : cvar) (fx : bool) (prog : list func) (x : xt) : bool :=
   match x with
   | XT f o fuel k kids =>
       match nth_error prog f with
@@ -394,19 +405,23 @@ Fixpoint complete (g : fkind -> bool) (fx : bool) (prog : list func) (x : xt) : 
       | None => false
       end && completes g fx prog kids
   end
-with completes (g : fkind -> bool) (fx : bool) (prog : list func) (xs : xts) : bool :=
+with completes (g : cvar) (fx : bool) (prog : list func) (xs : xts) : bool :=
   match xs with
   | XNil => true
   | XCons x r => complete g fx prog x && completes g fx prog r
   end.
 
-Definition func_ok (fx : bool) (fn : func) : bool :=
-  implb (f_tflag fn) (is_term (f_body fn)) && (fx || clean_b 0 (f_body fn)).
+Definition func_ok (g : cvar) (fx : bool) (fn : func) : bool :=
+  implb (f_tflag fn) (is_term (f_body fn)) && (fx || clean_b 0 (f_body fn)) &&
+  (negb (cv_wrap2 g) || negb (wrapped (f_kind fn))).
 
-Definition prog_ok (fx : bool) (prog : list func) : bool := forallb (func_ok fx) prog.
+Definition prog_ok (g : cvar) (fx : bool) (prog : list func) : bool := forallb (func_ok g fx) prog.
 
-Definition all_true : fkind -> bool := fun _ => true.
+(* the code as it is *)
+Definition as_is : cvar := CV (fun _ => true) true.
+(* ... with the wrapper's second unwind event removed (proposed fix) *)
+Definition wrap_fixed : cvar := CV (fun _ => true) false.
 
 (* the seeded guard "tracing and not self.is_inlined and not self.body.is_terminator" *)
-Definition g_not_inlined : fkind -> bool :=
-  fun k => match k with KGen true _ => false | _ => true end.
+Definition g_not_inlined : cvar :=
+  CV (fun k => match k with KGen true _ => false | _ => true end) true.
